@@ -844,8 +844,47 @@ def gluetable():
     return rows
 
 
+# ---------------------------------------------------------------------------------------------
+# C02 / C03 / C06: where DirectCollocation places the collocation times — the step length used and the formula, as written in the loop
+# that fills self.tr (three independent seeded changes hit this block)
+def roottimes():
+    tree = ast.parse(open(os.path.join(REPO, "rockit", "direct_collocation.py")).read())
+    fn = _find_function(tree, "DirectCollocation", "add_constraints")
+    dt_src, formula, dt_in_loop, n_tr_loops = "", "", False, 0
+    if fn is not None:
+        for loop in [n for n in fn.body if isinstance(n, ast.For)]:
+            appends = [n for n in ast.walk(loop) if isinstance(n, ast.Call) and isinstance(n.func, ast.Attribute) and n.func.attr == "append"
+                       and _norm(ast.unparse(n.func.value)) == "self.tr"]
+            if not appends:
+                continue
+            n_tr_loops += 1
+            for st in loop.body:
+                if isinstance(st, ast.Assign) and len(st.targets) == 1 and isinstance(st.targets[0], ast.Name) and st.targets[0].id == "dt":
+                    dt_src = _norm(ast.unparse(st.value))
+                    dt_in_loop = True
+            for n in ast.walk(loop):
+                if isinstance(n, ast.ListComp) and "self.tau" in ast.unparse(n.elt):
+                    formula = _norm(ast.unparse(n.elt))
+            if isinstance(loop.target, ast.Name) and _norm(ast.unparse(loop.iter)) == "range(self.N)":
+                formula = formula + "|for:" + loop.target.id
+    L = ["/-! GENERATED by tools/extract.py from /repo/rockit/direct_collocation.py (DirectCollocation.add_constraints) — do not edit. -/",
+         "namespace Rockit.Generated", "",
+         "/-- the loop that fills `self.tr` (collocation times): the step length it uses, whether that is computed inside the loop over the",
+         "control intervals, the formula of one collocation time, and how many such loops there are -/",
+         'def rootTimeDt : String := "%s"' % dt_src,
+         "def rootTimeDtPerInterval : Bool := %s" % str(dt_in_loop).lower(),
+         'def rootTimeFormula : String := "%s"' % formula,
+         "def rootTimeLoops : Nat := %d" % n_tr_loops, "", "end Rockit.Generated", ""]
+    path = os.path.join(OUT, "RootTimes.lean")
+    new_src = "\n".join(L)
+    if not os.path.exists(path) or open(path).read() != new_src:
+        open(path, "w").write(new_src)
+    return dt_src, dt_in_loop, formula, n_tr_loops
+
+
 def main():
     rows = _main_inval()
+    roottimes()
     guards()
     infcert()
     clonetable()
